@@ -8,7 +8,8 @@ import re
 _TOK = re.compile(r'"(?:[^"\\]|\\.)*"|<<|>>|\|->|:>|@@|[\[\]{}(),]|-?\d+|[A-Za-z_][A-Za-z_0-9]*|\s+')
 
 
-def tla_to_json_text(text):
+def tla_to_json_text(text, pairs=False):
+    """pairs=True: a function (k :> v @@ ...) becomes a list of [k, v] pairs (needed when keys are tuples)"""
     out = []
     for m in _TOK.finditer(text):
         tok = m.group(0)
@@ -19,14 +20,20 @@ def tla_to_json_text(text):
             out.append('[')
         elif tok == '>>' or tok == '}':
             out.append(']')
-        elif tok == '[' or tok == '(':
+        elif tok == '[':
             out.append('{')
-        elif tok == ']' or tok == ')':
+        elif tok == ']':
             out.append('}')
-        elif tok == '|->' or tok == ':>':
+        elif tok == '(':
+            out.append('[[' if pairs else '{')
+        elif tok == ')':
+            out.append(']]' if pairs else '}')
+        elif tok == '|->':
             out.append(':')
+        elif tok == ':>':
+            out.append(',' if pairs else ':')
         elif tok == '@@':
-            out.append(',')
+            out.append('],[' if pairs else ',')
         elif tok == ',':
             out.append(',')
         elif c.isspace():
@@ -50,8 +57,13 @@ def parse_value(text):
     try:
         return json.loads(j)
     except json.JSONDecodeError:
+        pass
+    try:
         # function with integer keys: quote them
         return json.loads(_KEYFIX.sub(r'\1"\2":', j))
+    except json.JSONDecodeError:
+        # function with tuple keys: every function of this value as a list of [key, value] pairs
+        return json.loads(tla_to_json_text(text, pairs=True))
 
 
 _STATE = re.compile(r'^State \d+:\s*$', re.M)
